@@ -23,10 +23,25 @@ type Divergence struct {
 	Impl  string
 	Model string
 	S     bool // spec-level divergence (property violation at this input)
+	MLine string // the line handed to the model (with data appended by the implementation side)
 }
 
 // Classifier decides the stratum of a divergence; nil means "the op's own S flag".
 type Classifier func(op Op, impl, model string) bool
+
+// HistEntry is one executed op with the implementation's canonical observation.
+type HistEntry struct {
+	Op   Op
+	Impl string
+	Now  string // the wall clock a command used, when it reported one
+}
+
+// PostCheck is a property-level assertion over the implementation's own observations
+// (no model involved): it returns a non-empty description when the last entry of the
+// history violates the property given the earlier ones.
+type PostCheck func(hist []HistEntry) string
+
+var currentPost PostCheck
 
 // Stats collects what a run covered (written to the evidence file).
 type Stats struct {
@@ -123,25 +138,51 @@ func (st *Stats) record(ctx string, op Op, obs string) {
 // runCase executes the ops on both sides; it stops at the first divergence.
 func runCase(ex Executor, d *Drv, ops []Op, st *Stats, canon func(string) string, cl Classifier) *Divergence {
 	ctx := ""
+	var hist []HistEntry
 	for i, op := range ops {
 		if strings.HasPrefix(op.Line, "create ") {
 			ctx = strings.Fields(op.Line)[1]
 		}
-		io := canon(ex.Exec(op.Line))
-		mo := canon(d.Ask(op.Line))
+		raw := ex.Exec(op.Line)
+		if strings.HasPrefix(raw, "skip") {
+			// the wall clock ticked inside a command: the case is inconclusive, drop the rest
+			return nil
+		}
+		mline := op.Line
+		nowUsed := ""
+		if j := strings.LastIndex(raw, " @now="); j >= 0 {
+			// commands read the wall clock themselves: hand the model the clock they used
+			nowUsed = raw[j+6:]
+			mline += " now=" + nowUsed
+			raw = raw[:j]
+		}
+		if j := strings.LastIndex(raw, " @append="); j >= 0 {
+			// data only the implementation has (e.g. the content of a randomly generated
+			// file) is handed to the model / spec oracle on the same line
+			mline += " " + raw[j+9:]
+			raw = raw[:j]
+		}
+		io := canon(raw)
+		mo := canon(d.Ask(mline))
 		if st != nil {
 			st.record(ctx, op, io)
 		}
+		if currentPost != nil {
+			hist = append(hist, HistEntry{op, io, nowUsed})
+			if v := currentPost(hist); v != "" {
+				return &Divergence{i, op, io, "spec: " + v, true, mline}
+			}
+		}
 		if cl != nil && io == mo && cl(op, io, mo) {
 			// both sides agree on an outcome the property forbids
-			return &Divergence{i, op, io, mo, true}
+			return &Divergence{i, op, io, mo, true, mline}
 		}
 		if io != mo {
 			isS := op.S
 			if cl != nil {
 				isS = cl(op, io, mo)
 			}
-			return &Divergence{i, op, io, mo, isS}
+			return &Divergence{i, op, io, mo, isS, mline}
 		}
 	}
 	return nil
@@ -157,7 +198,13 @@ func divSig(dv *Divergence) string {
 }
 
 func shrink(mk func() Executor, ops []Op, canon func(string) string, cl Classifier, wantS bool, wantSig string) ([]Op, *Divergence) {
+	budget := 80
+	deadline := time.Now().Add(25 * time.Second)
 	test := func(cand []Op) *Divergence {
+		if budget <= 0 || time.Now().After(deadline) {
+			return nil
+		}
+		budget--
 		ex := mk()
 		defer ex.Cleanup()
 		d := mustDrv()
